@@ -14,11 +14,30 @@ def eval_default_dispatch(P, fname, member, lib, ret):
     SELF_, OBJ, FN, LIBRET, MEMRET = 5000, 6000, 4242, 17, 23
     bad = {'bytewise': None, 'dispatch': None}
     unsup = None
+    # byte contents of the two objects (only cmp looks at them): equal; first byte smaller but last byte larger (a comparison by machine
+    # words orders these the other way round than memcmp); differing in the last byte only
+    contents = [None] if lib != 'memcmp' else ['equal', 'first-smaller-last-larger', 'last-differs']
     for inst in (0, 1):
         for has_member in ((0, 1) if inst else (0,)):
             for same in (1, 0):
                 for sz in (0, 8, 24):
+                  for content in contents:
                     events = []
+                    A = [((i * 7) + 3) & 0xff for i in range(sz)]
+                    B = list(A)
+                    if content == 'first-smaller-last-larger' and sz:
+                        A[0], B[0] = 1, 2
+                        A[7], B[7] = 9, 3
+                    elif content == 'last-differs' and sz:
+                        A[sz - 1], B[sz - 1] = 0x80, 0x7f
+                    bytewise = (A > B) - (A < B)
+
+                    def rd(a, it, A=A, B=B, sz=sz):
+                        w = it.mem_width or 1
+                        for base, arr in ((SELF_, A), (OBJ, B)):
+                            if base <= a and a + w <= base + sz:
+                                return sum(arr[a - base + j] << (8 * j) for j in range(w))
+                        raise cint.NoEval('read outside the two objects')
 
                     def call(nm, e, it, same=same, sz=sz, inst=inst, events=events):
                         if nm is None:
@@ -31,14 +50,23 @@ def eval_default_dispatch(P, fname, member, lib, ret):
                             return 8500 if (v == SELF_ or same) else 8600
                         if nm == 'size':
                             return sz if it.ev(e[2][0]) == 8500 else sz + 8
+                        if nm == lib and lib == 'memcmp':
+                            a_ = [it.ev(x) for x in e[2]]
+                            events.append(('lib', a_))
+                            # the real memcmp over the bytes it is pointed at (any magnitude)
+                            x0, y0, n0 = a_
+                            if not (SELF_ <= x0 <= SELF_ + sz and OBJ <= y0 <= OBJ + sz and x0 - SELF_ == y0 - OBJ and x0 - SELF_ + n0 <= sz):
+                                raise cint.NoEval('memcmp of something else')
+                            xa, yb = A[x0 - SELF_:x0 - SELF_ + n0], B[y0 - OBJ:y0 - OBJ + n0]
+                            return LIBRET * ((xa > yb) - (xa < yb))
                         if nm == lib:
                             events.append(('lib', [it.ev(x) for x in e[2]]))
-                            return it.ev(e[2][0]) if lib != 'memcmp' else LIBRET
+                            return it.ev(e[2][0])
                         raise cint.NoEval('call %s' % nm)
                     atoms = {('global', 'NULL'): 0, ('elem', 'inst', 0, member): FN if has_member else 0}
-                    r = cint.CInt(P, fn, atoms=atoms, call=call, N=util.Norm(P, fn, expand_locals=False, inline=False)).run([SELF_, OBJ])
-                    label = '%s, %s types, size %d' % ('own %s' % member if (inst and has_member) else ('no instance' if not inst else 'instance with an empty member'),
-                                                       'equal' if same else 'different', sz)
+                    r = cint.CInt(P, fn, atoms=atoms, call=call, mem=rd, N=util.Norm(P, fn, expand_locals=False, inline=False), strict=True).run([SELF_, OBJ])
+                    label = '%s, %s types, size %d%s' % ('own %s' % member if (inst and has_member) else ('no instance' if not inst else 'instance with an empty member'),
+                                                       'equal' if same else 'different', sz, (', bytes %s' % content) if content else '')
                     if r[0] == 'stuck':
                         unsup = unsup or '%s: %s' % (label, r[1])
                         continue
@@ -46,6 +74,10 @@ def eval_default_dispatch(P, fname, member, lib, ret):
                         good = r[0] == 'ret' and events == [('member', FN, [SELF_, OBJ])] and \
                             (ret != 'self' or r[1] == SELF_) and (ret not in ('lib', 'member') or r[1] == MEMRET)
                         which = 'dispatch'
+                    elif same and sz and lib == 'memcmp':
+                        # any route is fine as long as the sign is the sign of the byte-wise comparison of all size bytes
+                        good = r[0] == 'ret' and isinstance(r[1], int) and ((r[1] > 0) - (r[1] < 0)) == bytewise
+                        which = 'bytewise'
                     elif same and sz:
                         good = r[0] == 'ret' and events == [('lib', [SELF_, OBJ, sz])] and (ret != 'self' or r[1] == SELF_) and (ret != 'lib' or r[1] == LIBRET)
                         which = 'bytewise'
